@@ -121,9 +121,116 @@ theorem parseRevision_deleted (r f : Nat) (hr : r < 2 ^ 64) :
 theorem parseRevision_other (b : Bytes) (h8 : b.length ≠ 8) (h9 : b.length ≠ 9) : parseRevision b = none := by
   simp [parseRevision, revisionValueLength, revisionValueLengthWithDeletionFlag, h8, h9]
 
+/-! ### range bounds of the form `K ++ [0]` ("just after K"; `encodeBound` = `backend.encodeRangeBound`,
+/repo 146f0bb): the encoded bounds enclose exactly the records of the raw keys between the raw bounds -/
+
+/-- (i) Every version of `K` sorts before the bound "just after K". -/
+theorem versions_before_succ_bound {K : Bytes} {r : Nat} (hK : Alphabet K) (hr : r < 2 ^ 64) :
+    blt (encode K r) (encodeBound (K ++ [0])) = true := by
+  rw [blt_iff, encode_cmp_succ hK hK hr]; simp
+
+/-- (ii) Every record of a key at or after `K ++ [0]` — a proper extension of `K`, or greater — sorts
+after the bound "just after K" (strictly: the bound is no record's key). -/
+theorem succ_bound_before_greater {K K' : Bytes} {r : Nat} (hK : Alphabet K) (hK' : Alphabet K')
+    (hr : r < 2 ^ 64) (h : ble (K ++ [0]) K' = true) : blt (encodeBound (K ++ [0])) (encode K' r) = true := by
+  have h1 : cmp K' K = .gt := by
+    have := (ble_succ_iff K' K).mp h
+    rwa [blt_iff, ← cmp_gt_iff] at this
+  rw [blt_iff, ← cmp_gt_iff, encode_cmp_succ hK' hK hr]; simp [h1]
+
+/-- ... and every record of a key at or before `K` sorts before it. -/
+theorem le_before_succ_bound {K K' : Bytes} {r : Nat} (hK : Alphabet K) (hK' : Alphabet K')
+    (hr : r < 2 ^ 64) (h : ble K' K = true) : blt (encode K' r) (encodeBound (K ++ [0])) = true := by
+  rw [ble_iff] at h
+  rw [blt_iff, encode_cmp_succ hK' hK hr]; simp [h]
+
+/-- A lower bound (a key over the alphabet or the successor of one) is at or below exactly the records
+of the raw keys at or above it. -/
+theorem bound_lower_iff {a k : Bytes} {r : Nat} (ha : RangeBound a) (hk : Alphabet k) (hr : r < 2 ^ 64) :
+    ble (encodeBound a) (encode k r) = true ↔ ble a k = true := by
+  cases ha with
+  | key ha =>
+    rw [encodeBound_of_alphabet ha, encode_le_iff ha hk (by decide) hr, ble_iff_lt_or_eq, blt_iff]
+    constructor
+    · rintro (h | ⟨h, _⟩)
+      · exact .inl h
+      · exact .inr h
+    · rintro (h | h)
+      · exact .inl h
+      · exact .inr ⟨h, Nat.zero_le _⟩
+  | succ hK =>
+    rename_i K
+    rw [ble_succ_iff, ← not_blt_iff_ble]
+    constructor
+    · intro h
+      cases hc : blt K k
+      · have hle : ble k K = true := not_blt_iff_ble.mp hc
+        rw [le_before_succ_bound hK hk hr hle] at h
+        cases h
+      · rfl
+    · intro h
+      have hgt : ble (K ++ [0]) k = true := (ble_succ_iff k K).mpr h
+      have := succ_bound_before_greater hK hk hr hgt
+      rw [blt_iff] at this
+      simp [blt, cmp_swap (encodeBound (K ++ [0])) (encode k r), this]
+
+/-- An upper bound is above exactly the records of the raw keys below it. -/
+theorem bound_upper_iff {b k : Bytes} {r : Nat} (hb : RangeBound b) (hk : Alphabet k) (hr : r < 2 ^ 64) :
+    blt (encode k r) (encodeBound b) = true ↔ blt k b = true := by
+  cases hb with
+  | key hb =>
+    rw [encodeBound_of_alphabet hb, encode_lt_iff hk hb hr (by decide)]
+    constructor
+    · rintro (h | ⟨_, h⟩)
+      · exact h
+      · omega
+    · exact .inl
+  | succ hK =>
+    rename_i K
+    rw [blt_succ_iff, blt_iff, encode_cmp_succ hk hK hr, ble_iff]
+    cases cmp k K <;> simp
+
+/-- The bounds computed for a raw range `[a, b)` whose ends are keys or successors of keys enclose exactly
+the records of the raw keys in it: `[encodeBound (K ++ [0]), encodeBound hi)` holds the records of the
+keys `k'` with `K ++ [0] ≤ k' < hi` (not `K`), `[encodeBound lo, encodeBound (K ++ [0]))` those with
+`lo ≤ k' < K ++ [0]`, i.e. `lo ≤ k' ≤ K` (`K` included). Generalises `range_bounds_exact`. -/
+theorem range_bounds_exact' {a b k : Bytes} {r : Nat} (ha : RangeBound a) (hb : RangeBound b)
+    (hk : Alphabet k) (hr : r < 2 ^ 64) :
+    (ble (encodeBound a) (encode k r) = true ∧ blt (encode k r) (encodeBound b) = true) ↔
+      (ble a k = true ∧ blt k b = true) := by
+  rw [bound_lower_iff ha hk hr, bound_upper_iff hb hk hr]
+
+/-- `lo ≤ k' < K ++ [0]` is `lo ≤ k' ≤ K`, and `K ++ [0] ≤ k'` is `K < k'` (any byte strings). -/
+theorem succ_is_successor (k K : Bytes) :
+    (blt k (K ++ [0]) = true ↔ ble k K = true) ∧ (ble (K ++ [0]) k = true ↔ blt K k = true) :=
+  ⟨blt_succ_iff k K, ble_succ_iff k K⟩
+
+/-- Encoded bounds are ordered like the raw bounds (so a proper raw interval is scanned ascending). -/
+theorem bounds_ordered {a b : Bytes} (ha : RangeBound a) (hb : RangeBound b) (hab : cmp a b = .lt) :
+    cmp (encodeBound a) (encodeBound b) = .lt := encodeBound_lt ha hb hab
+
+/-- THE DEFECT (before /repo 146f0bb): the plain encoding of the bound `K ++ [0]` sorts before every
+version of `K` — for every key and revision: a range starting there includes `K` again, a range ending
+there misses `K`. -/
+theorem old_bound_encoding_defect (K : Bytes) (r : Nat) :
+    blt (encode (K ++ [0]) 0) (encode K r) = true := by
+  have e1 : encode (K ++ [0]) 0 = (magic ++ K) ++ (0 :: splitByte :: be64 0) := by simp [encode]
+  have e2 : encode K r = (magic ++ K) ++ (splitByte :: be64 r) := by simp [encode]
+  rw [blt_iff, e1, e2, cmp_append_left, cmp_cons_cons]
+  simp [splitByte]
+
+/-- ... on the concrete key "/a" at revision 5 (by evaluation), next to the repaired bound. -/
+theorem old_bound_encoding_witness :
+    blt (encode ([47, 97] ++ [0]) 0) (encode [47, 97] 5) = true ∧
+    blt (encode [47, 97] 5) (encodeBound ([47, 97] ++ [0])) = true ∧
+    blt (encode [47, 97] (2 ^ 64 - 1)) (encodeBound ([47, 97] ++ [0])) = true ∧
+    blt (encodeBound ([47, 97] ++ [0])) (encode [47, 97, 47, 98] 0) = true := by decide
+
 /-! Non-vacuity: concrete keys over the alphabet, prefixes of one another, with extreme revisions. -/
 example : Alphabet [47, 97] ∧ Alphabet [47, 97, 47, 98] ∧ (2 ^ 64 - 1 < 2 ^ 64) := by decide
 example : blt (encode [47, 97] (2 ^ 64 - 1)) (encode [47, 97, 47, 98] 0) = true := by decide
 example : decode (encode [] 0) = .ok [] 0 := by decide
+example : RangeBound [47, 97] ∧ RangeBound ([47, 97] ++ [0]) ∧ ble ([47, 97] ++ [0]) [47, 97, 47, 98] = true :=
+  ⟨.key (by decide), .succ (by decide), by decide⟩
 
 end KB.C10
